@@ -54,7 +54,12 @@ def expected(corpus, flt):
 def agree(c, flt):
     """run the real query code natively (all values are concrete after pick/ci/cb) and compare with the per-job oracle"""
     with nt():
-        return set(mk(c)._find_job_ids(flt)) == expected(c, flt)
+        want = expected(c, flt)
+        try:
+            got = set(mk(c)._find_job_ids(flt))
+        except (TypeError, KeyError, ValueError, AttributeError):
+            return False          # a well-typed query over a valid corpus must not fail (whatever the OTHER jobs hold)
+        return got == want
 
 
 def shaped(shape, v):
@@ -239,12 +244,14 @@ REGEX = ["a", "^b$", "a|b", ".", "^$", "[ab]+", "c"]
 STRS = ["a", "b", "ab", "", 1, None, True, 1.5]
 
 
-LM = [[{"x": 1, "y": 2}], [{"y": 2, "x": 1}], [{"x": 1, "y": 3}], [{"x": 1}], [[1, {"y": 2, "x": 1}]], [[1, {"x": 1, "y": 2}]]]
+LM = [[{"x": 1, "y": 2}], [{"y": 2, "x": 1}], [{"x": 1, "y": 3}], [{"x": 1}], [[1, {"y": 2, "x": 1}]], [[1, {"x": 1, "y": 2}]],
+      [{"b": [1]}], [{"b": {"c": 1}}], [{"b": {"c": [1, {"d": 2}]}}], 2]     # mappings inside lists that again contain lists / mappings; a plain scalar
 
 
 def h_list_of_mappings(i0: int, i1: int, q: int, form: int, ns: int):
     """list values that contain mappings (hashed through _hashable_dict): equality must not depend on the key order inside the mapping"""
-    assert 0 <= i0 < 6 and 0 <= i1 < 6 and 0 <= q < 6 and 0 <= form <= 3 and 0 <= ns <= 1
+    assert 0 <= i0 < 10 and 0 <= i1 < 10 and 0 <= q < 10 and 0 <= form <= 3 and 0 <= ns <= 1 and part_ok(q)
+    assert tier() != "quick" or i1 in (1, 2, 6, 8, 9)
     fresh_path()
     v0, v1, qq, form, ns = pick(LM, i0), pick(LM, i1), pick(LM, q), ci(form, 0, 3), ci(ns, 0, 1)
     c = corpus2(ns, {"a": v0}, {"a": v1})
@@ -507,7 +514,7 @@ HARNESSES = [
     dict(name="h_exists", timeout=(300, 900)),
     dict(name="h_type", timeout=(400, 900), parts=(6, 6)),
     dict(name="h_type_num", timeout=(300, 900), parts=(3, 3)),
-    dict(name="h_list_of_mappings", timeout=(300, 900)),
+    dict(name="h_list_of_mappings", timeout=(400, 900), parts=(10, 10)),
     dict(name="h_regex", timeout=(300, 900)),
     dict(name="h_near", timeout=(300, 900)),
     dict(name="h_logic", twin="h_logic__reach", timeout=(400, 900), parts=(10, 10)),
